@@ -18,6 +18,8 @@ for name in sorted(os.listdir(root)):
     ran = m.get("ran", {})
     kinds = []
     for v in ran.get("violation_kinds", []):
+        if isinstance(v, str):
+            v = {"signature": {"kind": v}}
         k = (v.get("signature") or {}).get("kind", "?")
         if not v.get("failing_input_found", True):
             k += " (no-failing-input-found)"
